@@ -7,6 +7,7 @@ import PrysmVerif.Lemmas.C07Hermite
 import PrysmVerif.Lemmas.C07Explicit
 import PrysmVerif.Lemmas.C07Q2d
 import PrysmVerif.Lemmas.C07Ortho
+import PrysmVerif.Lemmas.C07QbfsLow
 import Mathlib.MeasureTheory.Integral.IntervalIntegral.Basic
 import Mathlib.Analysis.SpecialFunctions.Pow.Real
 import Mathlib.Analysis.SpecialFunctions.Sqrt
@@ -124,43 +125,11 @@ theorem qbfsPQ_succ (sqrt : K → K) (rho : K) (n : ℕ) :
       ((qbfsPQ sqrt rho n).2.1, (2 - 4 * rho) * (qbfsPQ sqrt rho n).2.1 - (qbfsPQ sqrt rho n).1,
        (qbfsPQ sqrt rho n).2.2.2,
        ((2 - 4 * rho) * (qbfsPQ sqrt rho n).2.1 - (qbfsPQ sqrt rho n).1 - qbfsG sqrt (n+1) * (qbfsPQ sqrt rho n).2.2.2
-          - qbfsH n (qbfsF sqrt n) * (qbfsPQ sqrt rho n).2.2.1) * (1 / qbfsF sqrt (n+2))) := by
-  simp [qbfsPQ]
+          - qbfsH n (qbfsF sqrt n) * (qbfsPQ sqrt rho n).2.2.1) * (1 / qbfsF sqrt (n+2))) := C07L.qbfsPQ_step sqrt rho n
 
-/-- the translated body of `Qbfs` (loop included) computes the model's `qbfs sqrt n x`, every `n`, every `sqrt` -/
-theorem gen_qbfs (sqrt : K → K) (n : ℕ) (x : K) : Generated.C07.qbfs sqrt (n : ℤ) x = qbfs sqrt n x := by
-  first
-  | (show Model.C07.qbfs _ _ _ = _; simp)
-  | (
-      match n with
-      | 0 => simp [Generated.C07.qbfs, qbfs, qbfsPQ, pow_two]
-      | 1 => simp [Generated.C07.qbfs, qbfs, qbfsPQ, pow_two]
-      | n+2 =>
-        have h0 : ¬ (((n + 2 : ℕ) : ℤ) = 0) := by omega
-        have h1 : ¬ (((n + 2 : ℕ) : ℤ) = 1) := by omega
-        unfold Generated.C07.qbfs
-        simp only [if_neg h0, if_neg h1, ofInt_eq, npow_eq, Int.cast_one, Int.cast_ofNat, Int.cast_zero]
-        rw [show ((n+2:ℕ):ℤ) + 1 = 2 + ((n+1:ℕ):ℤ) by push_cast; ring]
-        rw [show qbfs sqrt (n+2) x = (qbfsPQ sqrt (x*x) (n+1)).2.2.2 * (x*x*(1-x*x)) from by
-          simp [qbfs, qbfsPQ_succ]]
-        congr 1
-        · refine (forRange_induct (fun k s =>
-              Generated.C07.qbfs_st_Pnm2 s = (qbfsPQ sqrt (x*x) k).1 ∧ Generated.C07.qbfs_st_Pnm1 s = (qbfsPQ sqrt (x*x) k).2.1
-              ∧ Generated.C07.qbfs_st_Qnm2 s = (qbfsPQ sqrt (x*x) k).2.2.1 ∧ Generated.C07.qbfs_st_Qnm1 s = (qbfsPQ sqrt (x*x) k).2.2.2
-              ∧ (1 ≤ k → Generated.C07.qbfs_st_Qn s = (qbfsPQ sqrt (x*x) k).2.2.2)) 2 _ _ ?_ ?_ (n+1)).2.2.2.2 (by omega)
-          · simp [qbfsPQ, pow_two]
-          · rintro k s ⟨hs1, hs2, hs3, hs4, -⟩
-            dsimp only [Generated.C07.qbfs_st_Pn, Generated.C07.qbfs_st_Pnm1, Generated.C07.qbfs_st_Pnm2, Generated.C07.qbfs_st_Qn, Generated.C07.qbfs_st_Qnm1, Generated.C07.qbfs_st_Qnm2] at hs1 hs2 hs3 hs4 ⊢
-            have eg : qbfsGi sqrt (2 + (k:ℤ) - 1) = qbfsG sqrt (k+1) := by
-              simp only [qbfsGi]; congr 1; omega
-            have eh : qbfsHi sqrt (2 + (k:ℤ) - 2) = qbfsH k (qbfsF sqrt k) := by
-              have : (2 + (k:ℤ) - 2).toNat = k := by omega
-              simp only [qbfsHi, this]
-            have ef : qbfsFi sqrt (2 + (k:ℤ)) = qbfsF sqrt (k+2) := by
-              simp only [qbfsFi]; congr 1; omega
-            simp only [eg, eh, ef, hs1, hs2, hs3, hs4, qbfsPQ_succ, pow_two]
-            exact ⟨trivial, trivial, trivial, trivial, fun _ => trivial⟩
-        · ring)
+/-- the translated body of `Qbfs` (loop included) computes the model's `qbfs sqrt n x`, every `n`, every `sqrt` (proof in `Lemmas/C07Gen.lean`,
+    shared with `Props/C08.lean`) -/
+theorem gen_qbfs (sqrt : K → K) (n : ℕ) (x : K) : Generated.C07.qbfs sqrt (n : ℤ) x = qbfs sqrt n x := C07L.gen_qbfs sqrt n x
 
 /-- `cheby1..4`, `legendre`, `Qcon` as written in the source (whole bodies, calling the translated `jacobi`) compute the model -/
 theorem gen_cheby_legendre_qcon (n : ℕ) (x : K) :
@@ -454,6 +423,20 @@ theorem q2d_cholesky_relations (sqrt : K → K) (hs : ∀ y, sqrt y * sqrt y = y
   · intro hf; rw [C07L.q2dg_eq]; field_simp
 
 end property
+
+/-- **Forbes' closed forms, LOW ORDERS ONLY (`n = 0, 1, 2`; a bounded statement, labelled as such)**: the source's `Qbfs` with the real square
+    root is `u²(1−u²)·Q_n(u²)` with `Q_0 = 1`, `Q_1 = (13 − 16x)/√19`, `Q_2 = √(2/95)·(29 − 4x(25 − 19x))` (Forbes 2007, eq. 2.8) for every `u` -/
+theorem qbfs_closed_forms_low_orders (u : ℝ) :
+    Generated.C07.qbfs Real.sqrt 0 u = u ^ 2 * (1 - u ^ 2)
+    ∧ Generated.C07.qbfs Real.sqrt 1 u = u ^ 2 * (1 - u ^ 2) * ((13 - 16 * u ^ 2) / Real.sqrt 19)
+    ∧ Generated.C07.qbfs Real.sqrt 2 u = u ^ 2 * (1 - u ^ 2) * (Real.sqrt (2 / 95) * (29 - 4 * u ^ 2 * (25 - 19 * u ^ 2))) := by
+  have h := C07L.qbfs_closed_low u
+  have e0 := gen_qbfs Real.sqrt 0 u
+  have e1 := gen_qbfs Real.sqrt 1 u
+  have e2 := gen_qbfs Real.sqrt 2 u
+  norm_cast at e0 e1 e2
+  rw [e0, e1, e2]
+  exact h
 
 /-! ## 2b. orthogonality PROVED for all orders: the four Chebyshev families (`Lemmas/C07Ortho.lean`) -/
 section chebyshev_orthogonality
